@@ -9,5 +9,7 @@ func init() {
 		c.Technique = "symbolic execution of go/ssa + SMT (z3): window kernel vs oracle, framework placement with stub lints"
 		c.Assume("P1: times have no monotonic reading, 0 <= nsec < 1e9, |seconds since year 1| < 2^55, location nil (UTC) - what encoding/asn1 time parsing yields")
 		c.Add(&Job{Pkg: lintPkg, Func: "VerifC03CheckEffective", MustCover: []string{"in-window", "out-of-window"}})
+		w := []string{"outside the window", "inside the window"}
+		addOrderJobs(c, "C03", map[int][]string{0: w, 1: w, 2: w})
 	}
 }
